@@ -200,6 +200,12 @@ FamDefects ==
       <<FA("", "need2", <<Arg("o", StrV("v"))>>), F("", "title")>>,
       <<FA("", "need2", <<Arg("o", StrV("v")), Arg("x", StrV("w"))>>), FA("z", "need2", <<Arg("x", NullV), Arg("o", StrV("v"))>>)>>,
       <<F("", "title"), FA("k", "need", <<Arg("x", StrV("ok"))>>), F("", "need")>> } }
+  \* ... or given through a variable that has no value (not supplied, supplied as null), directly and under an object / list member
+  \cup { Case("defect", Doc1V(<<VarDef("sv", S)>>, s), "", g, {}) :
+           s \in { <<FA("", "need", <<Arg("x", Var("sv"))>>), F("", "title")>>,
+                   <<FA("", "need2", <<Arg("o", StrV("v")), Arg("x", Var("sv"))>>), F("", "title")>>,
+                   <<F("", "title"), FA("k", "need", <<Arg("x", StrV("ok"))>>), FA("", "need", <<Arg("x", Var("sv"))>>)>> },
+           g \in {NoVars, [sv |-> NullV], [sv |-> StrV("given")]} }
   \* unknown / misplaced directive, directive with unknown or ill-typed argument: the document is refused
   \cup { Plain("defect", <<Bad(F("", "title"), b), FS("", "a", <<F("", "name")>>)>>) : b \in {"unknown_dir", "misplaced_dir", "dir_unknown_arg", "dir_bad_arg"} }
   \cup { Plain("defect", <<FS("", "a", <<Bad(F("", "name"), b)>>), F("", "title")>>) : b \in {"unknown_dir", "misplaced_dir", "dir_unknown_arg", "dir_bad_arg"} }
@@ -219,6 +225,9 @@ FaultDocs ==
   \cup { DocF(<<FS("", top, <<Spr("F"), F("q", "n")>>)>>, <<Frg("F", "A", <<F("", "name"), FS("", "kids", <<Spr("G")>>)>>), Frg("G", "A", <<F("", "n")>>)>>) : top \in {"a", "items"} }
   \cup { Doc1(<<F("", "grid"), F("", "bad"), FS("", "a", <<F("", "boom"), F("", "name")>>)>>) }
   \cup { Doc1(<<FS("", top, <<F("", "name"), F("h", "half")>>), F("", "title")>>) : top \in {"a", "items"} }
+  \* "data" is an alias like any other (it is also the key of the envelope)
+  \cup { Doc1(<<FS("data", "a", <<F("", "boom"), F("", "name")>>), F("", "title")>>), Doc1(<<F("data", "bad"), F("", "title")>>),
+         Doc1(<<FS("", "items", <<FS("data", "self", <<F("data", "boom"), F("", "n")>>)>>)>>) }
   \* output coercion failures (a leaf and list elements) and a group of groups of errors
   \cup { Doc1(<<FS("", top, <<F("", "name"), F("w", "wrong"), F("", "flags")>>), F("", "title")>>) : top \in {"a", "items", "matrix"} }
   \cup { Doc1(<<FS("", top, <<F("g", "nest"), F("", "n")>>), F("", "title")>>) : top \in {"a", "items"} }
@@ -242,7 +251,11 @@ ObjArgSeqs ==
     <<Arg("in", ObjV([a |-> Var("sv")]))>>,
     <<Arg("in", ObjV([a |-> Var("sv"), l |-> ListV(<<Var("sv"), StrV("k")>>)])), Arg("l", ListV(<<Var("sv")>>))>>,
     <<Arg("l", ListV(<<StrV("x"), Var("sv")>>))>>,
-    <<Arg("l", ListV(<<>>)), Arg("in", ObjV([n |-> IntV(7)]))>> }
+    <<Arg("l", ListV(<<>>)), Arg("in", ObjV([n |-> IntV(7)]))>>,
+    \* a nested literal holding a variable BEFORE members that are plain or variables themselves
+    <<Arg("ins", ListV(<<ObjV([a |-> Var("sv")]), ObjV([a |-> StrV("k")])>>))>>,
+    <<Arg("ins", ListV(<<ObjV([a |-> Var("sv"), l |-> ListV(<<Var("sv")>>)])>>)), Arg("ll", ListV(<<ListV(<<StrV("x"), Var("sv")>>), ListV(<<StrV("y")>>)>>))>>,
+    <<Arg("ll", ListV(<<ListV(<<Var("sv")>>), ListV(<<>>)>>)), Arg("l", ListV(<<Var("sv"), StrV("z")>>))>> }
 SvDefs == { <<VarDef("sv", S)>>, <<VarDefD("sv", S, StrV("dflt"))>> }
 SvGiven == { NoVars, [sv |-> StrV("one")], [sv |-> StrV("two")] }
 FamInputs ==
@@ -279,8 +292,9 @@ ReuseCalls(doc) ==
 \* ---- conditions under every container kind (C08; realised by the reflection strategy only)
 TN == F("", "__typename")
 CondSelsAbs == [ A |-> {<<F("", "n")>>, <<F("x", "name"), TN>>}, B |-> {<<F("", "flag")>>, <<TN>>},
-                 Named |-> {<<F("", "name")>>, <<F("y", "name"), TN>>}, Any |-> {<<TN>>}, C |-> {<<F("", "only")>>} ]
-AbsConds == {"A", "B", "Named", "Any", "C"}
+                 Named |-> {<<F("", "name")>>, <<F("y", "name"), TN>>}, Any |-> {<<TN>>}, C |-> {<<F("", "only")>>},
+                 Solo |-> {<<TN>>, <<F("s", "__typename"), Inl("A", <<F("", "n")>>)>>} ]
+AbsConds == {"A", "B", "Named", "Any", "C", "Solo"}
 AbsFrag(c, s) == Inl(c, s)
 AbsTops == {"one", "named", "any", "a", "items"}
 FamAbstract ==
@@ -293,7 +307,7 @@ FamAbstract ==
   \cup { Plain("abstract", <<FS("", top, <<F("", "name"), Inl(c, s)>>)>>) : top \in {"one", "named"}, <<c, s>> \in {<<"A", <<F("", "n")>>>>, <<"B", <<F("", "flag")>>>>} }
   \* named fragments with abstract and concrete conditions
   \cup { Case("abstract", DocF(<<FS("", top, <<Spr("F"), TN>>)>>, <<Frg("F", c, s)>>), "", NoVars, {}) :
-           top \in AbsTops, <<c, s>> \in UNION { {c} \X CondSelsAbs[c] : c \in {"A", "B", "Named", "Any"} } }
+           top \in AbsTops, <<c, s>> \in UNION { {c} \X CondSelsAbs[c] : c \in {"A", "B", "Named", "Any", "Solo"} } }
   \* nested: a fragment on a concrete type reaching another abstract position
   \cup { Plain("abstract", <<FS("", top, <<Inl("A", <<FS("", "peer", <<Inl(c, s), TN>>)>>), Inl("B", <<FS("", "peer", <<Inl("Named", <<F("", "name")>>)>>)>>)>>)>>) :
            top \in {"named", "any"}, <<c, s>> \in {<<"Named", <<F("", "name")>>>>, <<"B", <<F("", "flag")>>>>, <<"A", <<F("", "n")>>>>} }
